@@ -402,6 +402,7 @@ VARIANTS = [
     keep('P-release-pop-guarded', (B, "        if existingLock is not None and existingLock[0] == clientID:\n            del self.__locks[lockID]\n", "        if existingLock is not None and existingLock[0] == clientID:\n            self.__locks.pop(lockID)\n")),
     brk('B-drop-pops-wrong-key', ['C14'], 'R-drop-teardown', (TR, "self._nodeAddrToNode.pop(node.address, None)", "self._nodeAddrToNode.pop(node, None)")),
     brk('B-readonly-id-from-set-size', ['C14', 'C18'], 'R-readonly-id-unique', (TR, "            nodeId = str(self._readonlyNodesCounter)\n", "            nodeId = str(len(self._readonlyNodes))\n"), (TR, "            self._readonlyNodesCounter += 1\n", "")),
+    keep('P-py3-range-items', (S, r'\bxrange\(', 'range('), (S, r' in iteritems\(([A-Za-z_.]+)\)', r' in \1.items()'), regex=True),
     keep('P-rename-transport-privates', (TR, '_shouldConnect', '_mustDial'), (TR, '_onIncomingMessageReceived', '_onHandshake'), (TR, '_connectIfNecessarySingle', '_dialOne'),
          (TR, '_onDisconnected', '_onConnLost')),
     keep('P-checkserializing-hoist-reset', (SER, "                serializeState = SERIALIZER_STATE.SUCCESS if self.__pid == -1 else SERIALIZER_STATE.FAILED\n                self.__pid = 0\n", "                finished = self.__pid\n                self.__pid = 0\n                serializeState = SERIALIZER_STATE.SUCCESS if finished == -1 else SERIALIZER_STATE.FAILED\n")),
